@@ -46,7 +46,7 @@ func (c19) ReplayNeedsPrefix() bool { return true }
 func (c19) Plan(tier string) fw.Plan {
 	p := fw.Plan{
 		Batches: 16, Cases: 2000, TimeoutSec: 900, Level: "exploration",
-		Rule: "one case = one to three bindings (Go type, schema type) — a Go type drawn by reflection over every documented shape for a freshly drawn type system (integer widths and signedness, float32, the three link types, pointer vs nilable for optional/nullable, ** for both, {Keys,Values} structs with string, enum and struct keys, union structs), a user-declared named Go type with a hand-written schema, or a Go type whose schema bindnode infers — with several typed values each (integers redrawn on the boundaries of the Go kind, one case in five also just outside) checked through Wrap, Prototype+Unwrap at both levels, Marshal/Unmarshal with dag-cbor and dag-json, followed by a history of 8-24 repeated/interleaved binding calls over the bindings of this and earlier cases of the same process. Non-trivial: every case; distinct by hash of (Go type, schema, values).",
+		Rule:        "one case = one to three bindings (Go type, schema type) — a Go type drawn by reflection over every documented shape for a freshly drawn type system (integer widths and signedness, float32, the three link types, pointer vs nilable for optional/nullable, ** for both, {Keys,Values} structs with string, enum and struct keys, union structs), a user-declared named Go type with a hand-written schema, or a Go type whose schema bindnode infers — with several typed values each (integers redrawn on the boundaries of the Go kind, one case in five also just outside) checked through Wrap, Prototype+Unwrap at both levels, Marshal/Unmarshal with dag-cbor and dag-json, followed by a history of 8-24 repeated/interleaved binding calls over the bindings of this and earlier cases of the same process. Non-trivial: every case; distinct by hash of (Go type, schema, values).",
 		Assumptions: []string{"float64 values that float32 cannot hold are not fed to float32 fields (the property speaks of integer widths)", "dag-json round trips skip values containing floats (C04 known finding: integral floats decode as ints)", "inference is exercised for the shapes api.go documents as inferable (named structs, slices, bool/int64/float64/string/[]byte/links/Node)"},
 		MinEvents:   []string{"bindings:dynamic", "bindings:declared", "bindings:inferred", "wrap_readouts", "unwrap_walks", "marshal_roundtrips", "nofit_inputs", "history_ops", "inferred_calls"},
 	}
